@@ -186,6 +186,20 @@ CLAIMED = {
         "independence are value-level and not decided.",
         design_ref="DESIGN.md §4 C18",
     ),
+    "C19": dict(
+        technique=TECH + "finite octet decision tree of the new decompressors, linear-form exactness of the "
+        "label-length guards (sibling + cross-codec agreement), strict fresh backward guards in the new message "
+        "parsers, linear bound (header included) and stamp formula in the new compressor, declaration-order layout",
+        text="Decides structural necessary conditions of C19: both new parse_segment siblings classify the head "
+        "octet exactly like the established codec (0x00 root, 0x01..0x3F label, 0xC0..0xFF pointer; all 256 octets) "
+        "and mask pointers with 0x3FFF; their label-length guard is exactly size + l + 2 <= 255, the established "
+        "parse_ref limit; all four new message-name parsers remove the 12-octet header and follow a pointer only "
+        "strictly before the previous start, re-checked per pointer; NameCompressor registers a name only if every "
+        "suffix offset + 12 fits 14 bits and stamps used entries with contents.len() + remaining length; header, "
+        "counts, question and record structs list fields in wire order. Differential acceptance on all byte strings "
+        "is not decided.",
+        design_ref="DESIGN.md §4 C19",
+    ),
     "C20": dict(
         technique=TECH + "expiry-guard dominance, TTL decrement dataflow per section, who-may-stamp created_at "
         "audit, arm-to-Config-field table of validity(), closure-capture provenance of the DNSSEC stripping",
@@ -293,7 +307,7 @@ def main():
         print("MANIFEST.json written (jsonschema not available in this interpreter)")
 
 
-SOURCE_COMMITS = ["6d017b8", "5bee0e2", "d442263", "1972f03", "e564cac", "7c5564a", "eac9679", "3d7d923", "6138459", "e52828b", "7010af2", "d5ab2d6", "a685388"]
+SOURCE_COMMITS = ["6d017b8", "5bee0e2", "d442263", "1972f03", "e564cac", "7c5564a", "eac9679", "3d7d923", "6138459", "e52828b", "7010af2", "d5ab2d6", "a685388", "e5bfc9a"]
 
 if __name__ == "__main__":
     main()
